@@ -28,23 +28,63 @@ type refSigs struct {
 	Fields map[string]string `json:"fields"` // "ctree.Tree.leafBranch" -> type
 	// Params: reference parameter list (incl. receiver) of every function: [name, type] pairs
 	Params map[string][][2]string `json:"params"`
+	// Structs: the ordered field list of every hand-written struct type, and Shapes: its shape with the
+	// type's own name replaced by $SELF (used to recognise a renamed type)
+	Structs map[string][][2]string `json:"structs"`
+	Shapes  map[string]string      `json:"shapes"`
 }
 
 var refParams map[string][][2]string
 
 var (
+	canonType  = map[*types.TypeName]string{} // renamed type -> reference type name
+	typeRepl   [][2]string                    // textual replacements current -> reference ("pkg/path.Cur", "pkg/path.Ref") and short forms
 	canonFn    = map[*ssa.Function]string{} // renamed function -> reference name
 	canonByRef = map[string]*ssa.Function{} // reference name -> renamed function
 	canonField = map[*types.Var]string{}    // renamed field -> reference field name
 	canonNotes []string
 )
 
+// normType rewrites the names of renamed types to their reference names inside a type / function string.
+func normType(s string) string {
+	for _, pr := range typeRepl {
+		s = replaceWord(s, pr[0], pr[1])
+	}
+	return s
+}
+
+// replaceWord replaces old by new where old is not followed by an identifier character.
+func replaceWord(s, old, new string) string {
+	if old == "" || !strings.Contains(s, old) {
+		return s
+	}
+	var b strings.Builder
+	for {
+		i := strings.Index(s, old)
+		if i < 0 {
+			b.WriteString(s)
+			break
+		}
+		j := i + len(old)
+		b.WriteString(s[:i])
+		if j < len(s) && (s[j] == '_' || (s[j] >= '0' && s[j] <= '9') || (s[j] >= 'a' && s[j] <= 'z') || (s[j] >= 'A' && s[j] <= 'Z')) {
+			b.WriteString(old)
+		} else {
+			b.WriteString(new)
+		}
+		s = s[j:]
+	}
+	return b.String()
+}
+
+func fullQ(p *types.Package) string { return p.Path() }
+
 func sigString(f *ssa.Function) string {
-	return types.TypeString(f.Signature, func(p *types.Package) string { return p.Path() })
+	return normType(types.TypeString(f.Signature, fullQ))
 }
 
 func rawFnName(fn *ssa.Function) string {
-	return strings.ReplaceAll(fn.String(), modPath+"/", "")
+	return normType(strings.ReplaceAll(fn.String(), modPath+"/", ""))
 }
 
 // owner: "(*cache.Target)" for methods, "cache" for functions.
@@ -56,7 +96,7 @@ func ownerOf(name string) string {
 }
 
 func (p *Prog) snapshotSigs() refSigs {
-	rs := refSigs{Funcs: map[string]string{}, Fields: map[string]string{}, Params: map[string][][2]string{}}
+	rs := refSigs{Funcs: map[string]string{}, Fields: map[string]string{}, Params: map[string][][2]string{}, Structs: map[string][][2]string{}, Shapes: map[string]string{}}
 	for _, mp := range p.ModPkgs() {
 		rel := strings.TrimPrefix(mp, modPath+"/")
 		for _, f := range p.PkgFuncs(rel) {
@@ -66,7 +106,7 @@ func (p *Prog) snapshotSigs() refSigs {
 			rs.Funcs[rawFnName(f)] = sigString(f)
 			var ps [][2]string
 			for _, pr := range f.Params {
-				ps = append(ps, [2]string{pr.Name(), types.TypeString(pr.Type(), func(p *types.Package) string { return p.Path() })})
+				ps = append(ps, [2]string{pr.Name(), normType(types.TypeString(pr.Type(), fullQ))})
 			}
 			rs.Params[rawFnName(f)] = ps
 		}
@@ -84,10 +124,21 @@ func (p *Prog) snapshotSigs() refSigs {
 			if strings.HasSuffix(pos, ".pb.go") || strings.HasSuffix(pos, "_test.go") {
 				continue
 			}
+			tn := t.Name()
+			if ref, ok := canonType[t.Object().(*types.TypeName)]; ok {
+				tn = ref
+			}
+			self := mp + "." + t.Name()
+			var shape []string
 			for i := 0; i < st.NumFields(); i++ {
 				fl := st.Field(i)
-				rs.Fields[rel+"."+t.Name()+"."+fl.Name()] = types.TypeString(fl.Type(), func(p *types.Package) string { return p.Path() })
+				raw := types.TypeString(fl.Type(), fullQ)
+				ft := normType(raw)
+				rs.Fields[rel+"."+tn+"."+fl.Name()] = ft
+				rs.Structs[rel+"."+tn] = append(rs.Structs[rel+"."+tn], [2]string{fl.Name(), ft})
+				shape = append(shape, replaceWord(raw, self, "$SELF"))
 			}
+			rs.Shapes[rel+"."+tn] = strings.Join(shape, ";")
 		}
 	}
 	return rs
@@ -112,6 +163,55 @@ func (p *Prog) canonicalise(path string) {
 		return
 	}
 	refParams = ref.Params
+	// ---- renamed struct types: a missing type and the only new type of the package with the same shape
+	{
+		pre := p.snapshotSigs()
+		byPkgMissing := map[string][]string{}
+		byPkgNew := map[string][]string{}
+		for n := range ref.Shapes {
+			if _, ok := pre.Shapes[n]; !ok {
+				byPkgMissing[ownerOf(n)] = append(byPkgMissing[ownerOf(n)], n)
+			}
+		}
+		for n := range pre.Shapes {
+			if _, ok := ref.Shapes[n]; !ok {
+				byPkgNew[ownerOf(n)] = append(byPkgNew[ownerOf(n)], n)
+			}
+		}
+		for pk, miss := range byPkgMissing {
+			sort.Strings(miss)
+			for _, m := range miss {
+				var cands []string
+				for _, n := range byPkgNew[pk] {
+					// same number of fields with the same types; field names may have changed as well
+					if shapeTypes(ref.Shapes[m]) == shapeTypes(pre.Shapes[n]) {
+						cands = append(cands, n)
+					}
+				}
+				if len(cands) != 1 {
+					continue
+				}
+				curName := cands[0][len(pk)+1:]
+				refName := m[len(pk)+1:]
+				if sp := p.pkg(pk); sp != nil {
+					if tt, ok := sp.Members[curName].(*ssa.Type); ok {
+						canonType[tt.Object().(*types.TypeName)] = refName
+						full := modPath + "/" + pk
+						typeRepl = append(typeRepl, [2]string{full + "." + curName, full + "." + refName})
+						typeRepl = append(typeRepl, [2]string{pk + "." + curName, pk + "." + refName})
+						short := pk
+						if i := strings.LastIndex(pk, "/"); i >= 0 {
+							short = pk[i+1:]
+						}
+						if short != pk {
+							typeRepl = append(typeRepl, [2]string{short + "." + curName, short + "." + refName})
+						}
+						canonNotes = append(canonNotes, fmt.Sprintf("type %s is taken to be renamed to %s (only new struct type of the package with the same field types)", m, cands[0]))
+					}
+				}
+			}
+		}
+	}
 	cur := p.snapshotSigs()
 	// ---- functions
 	curFns := map[string]*ssa.Function{}
@@ -155,47 +255,74 @@ func (p *Prog) canonicalise(path string) {
 			}
 		}
 	}
-	// ---- fields
-	byStruct := map[string][]string{}
-	for n := range cur.Fields {
-		if _, ok := ref.Fields[n]; !ok {
-			byStruct[ownerOf(n)] = append(byStruct[ownerOf(n)], n)
-		}
-	}
-	var missF []string
-	for n := range ref.Fields {
-		if _, ok := cur.Fields[n]; !ok {
-			missF = append(missF, n)
-		}
-	}
-	sort.Strings(missF)
-	fc := map[string][]string{}
-	fclaimed := map[string][]string{}
-	for _, m := range missF {
-		for _, n := range byStruct[ownerOf(m)] {
-			if ref.Fields[m] == cur.Fields[n] {
-				fc[m] = append(fc[m], n)
-				fclaimed[n] = append(fclaimed[n], m)
-			}
-		}
-	}
-	for _, m := range missF {
-		if len(fc[m]) != 1 || len(fclaimed[fc[m][0]]) != 1 {
+	// ---- fields: a struct whose field types are unchanged in order pairs renamed fields by position;
+	// otherwise a missing field is the only new field of the struct with the identical type
+	for sname, rfs := range ref.Structs {
+		cfs, ok := cur.Structs[sname]
+		if !ok {
 			continue
 		}
-		n := fc[m][0]
-		// "pkg/path.Type.field"
-		own := ownerOf(n)
+		own := sname
 		i := strings.LastIndex(own, ".")
 		if i < 0 {
 			continue
 		}
-		if v := p.fieldRaw(own[:i], own[i+1:], n[len(own)+1:]); v != nil {
-			canonField[v] = m[len(ownerOf(m))+1:]
-			canonNotes = append(canonNotes, fmt.Sprintf("field %s is taken to be renamed to %s (only new field of the struct with the identical type)", m, n))
+		pk, tn := own[:i], own[i+1:]
+		bind := func(refField, curField string) {
+			if refField == curField {
+				return
+			}
+			if v := p.fieldRaw(pk, tn, curField); v != nil {
+				canonField[v] = refField
+				canonNotes = append(canonNotes, fmt.Sprintf("field %s.%s is taken to be renamed to %s", sname, refField, curField))
+			}
+		}
+		sameTypes := len(rfs) == len(cfs)
+		if sameTypes {
+			for k := range rfs {
+				if rfs[k][1] != cfs[k][1] {
+					sameTypes = false
+				}
+			}
+		}
+		if sameTypes {
+			names := map[string]bool{}
+			for _, f := range cfs {
+				names[f[0]] = true
+			}
+			for k := range rfs {
+				if !names[rfs[k][0]] { // the reference name is gone: the field at its position carries it now
+					bind(rfs[k][0], cfs[k][0])
+				}
+			}
+			continue
+		}
+		refNames, curNames := map[string]string{}, map[string]string{}
+		for _, f := range rfs {
+			refNames[f[0]] = f[1]
+		}
+		for _, f := range cfs {
+			curNames[f[0]] = f[1]
+		}
+		for rn, rt := range refNames {
+			if _, ok := curNames[rn]; ok {
+				continue
+			}
+			var cands []string
+			for cn, ct := range curNames {
+				if _, isRef := refNames[cn]; !isRef && ct == rt {
+					cands = append(cands, cn)
+				}
+			}
+			if len(cands) == 1 {
+				bind(rn, cands[0])
+			}
 		}
 	}
 }
+
+// shapeTypes: the field types of a shape (they are joined by ';'); names are not part of a shape.
+func shapeTypes(s string) string { return s }
 
 // vname: the reference name of a struct field (its own name unless it was renamed).
 func vname(v *types.Var) string {
